@@ -248,6 +248,8 @@ Print Assumptions C17_dispatch_gate.
    If the code changes so that a tie no longer holds, this file no longer checks. *)
 Require Verif.Tie.Vers.Code.
 Require Verif.Tie.Vers.Constraints.
+Require Verif.Tie.Vers.CoreAlternating.
+Require Verif.Tie.Vers.CoreGroup.
 Require Verif.Tie.Vers.Printers.
 Require Verif.Tie.Vers.Pypi.
 Require Verif.Tie.Vers.Texts.
@@ -266,6 +268,14 @@ Definition C17_tie_parseConstraints_finished := Verif.Tie.Vers.Constraints.parse
 Print Assumptions C17_tie_parseConstraints_finished.
 Definition C17_tie_parseConstraints_normalize := Verif.Tie.Vers.Constraints.parseConstraints_normalize.
 Print Assumptions C17_tie_parseConstraints_normalize.
+Definition C17_tie_alternatingIntervals_no_panic := Verif.Tie.Vers.CoreAlternating.alternatingIntervals_no_panic.
+Print Assumptions C17_tie_alternatingIntervals_no_panic.
+Definition C17_tie_alternatingIntervals_total := Verif.Tie.Vers.CoreAlternating.alternatingIntervals_total.
+Print Assumptions C17_tie_alternatingIntervals_total.
+Definition C17_tie_groupConstraintsIntoIntervals_no_panic := Verif.Tie.Vers.CoreGroup.groupConstraintsIntoIntervals_no_panic.
+Print Assumptions C17_tie_groupConstraintsIntoIntervals_no_panic.
+Definition C17_tie_groupConstraintsIntoIntervals_total := Verif.Tie.Vers.CoreGroup.groupConstraintsIntoIntervals_total.
+Print Assumptions C17_tie_groupConstraintsIntoIntervals_total.
 Definition C17_tie_alpine_printer_tie := Verif.Tie.Vers.Printers.alpine_printer_tie.
 Print Assumptions C17_tie_alpine_printer_tie.
 Definition C17_tie_cargo_printer_tie := Verif.Tie.Vers.Printers.cargo_printer_tie.
